@@ -357,9 +357,9 @@ func (s *sut) obs(full bool, hs []int, dumps []int) tr.E {
 // ------------------------------------------------------------------ statistics (evidence only)
 
 type stats struct {
-	Events, Writes, Scans, Sweeps, MaxHeight, MaxKeys, Clones, Panics int
-	Heights                                                           map[int]int
-	Degrees                                                           map[int]int
+	Events, Writes, Scans, Sweeps, Changes, MaxHeight, MaxKeys, Clones, Panics int
+	Heights                                                                    map[int]int
+	Degrees                                                                    map[int]int
 }
 
 var st = stats{Heights: map[int]int{}, Degrees: map[int]int{}}
@@ -372,10 +372,10 @@ type runner struct {
 	rng    *rand.Rand
 	lo, hi int // key domain (pivots are drawn from lo-1..hi+1)
 	ver    int
-	sweep  int    // 0: only at the end, 1: when the node structure changed, 2: after every write
-	dumpK  int    // dump / full contents every dumpK-th write (1 = every write)
-	nw     int    // writes so far
-	last   string // structure signature at the latest sweep
+	sweep  int            // probability (percent) of a scan sweep when the node structure changed
+	dumpK  int            // dump / full contents every dumpK-th write (1 = every write)
+	nw     int            // writes so far
+	last   map[int]string // structure signature per handle after its latest write
 	dead   bool
 	done   act // the action as executed (version / new handle filled in)
 }
@@ -452,9 +452,12 @@ func (r *runner) step(a act) {
 	if t.Len() > st.MaxKeys {
 		st.MaxKeys = t.Len()
 	}
-	if r.sweep == 2 || (r.sweep == 1 && sg != r.last) {
-		r.last = sg
-		r.doSweep(h)
+	if sg != r.last[h] { // the node structure changed (split, merge, steal, root growth / collapse, new separator)
+		r.last[h] = sg
+		st.Changes++
+		if r.rng.Intn(100) < r.sweep {
+			r.doSweep(h)
+		}
 	}
 }
 
@@ -488,14 +491,14 @@ func (r *runner) pivots(h int) []int {
 		}
 	} else {
 		_, _, seps := shape(r.s.hs[h-1])
-		if len(seps) > 12 {
+		if len(seps) > 6 {
 			r.rng.Shuffle(len(seps), func(i, j int) { seps[i], seps[j] = seps[j], seps[i] })
-			seps = seps[:12]
+			seps = seps[:6]
 		}
 		for _, k := range seps {
 			set[k-1], set[k], set[k+1] = true, true, true
 		}
-		for i := 0; i < 8; i++ {
+		for i := 0; i < 5; i++ {
 			set[r.lo+r.rng.Intn(r.hi-r.lo+1)] = true
 		}
 	}
@@ -507,33 +510,42 @@ func (r *runner) pivots(h int) []int {
 	return out
 }
 
-// doSweep: every scan entry point from every chosen pivot (filter and limit drawn per scan)
+// doSweep: the exclusive scans added by neptune and their inclusive counterparts from EVERY
+// chosen pivot; the other upstream entry points from a random quarter of them (all of them from
+// the boundary pivots); filter and limit drawn per scan.
 func (r *runner) doSweep(h int) {
 	st.Sweeps++
-	fns := innerScans
-	if r.s.api == "wrap" {
-		fns = wrapScans
-	}
 	ps := r.pivots(h)
-	for _, fn := range fns {
-		switch {
-		case noPivot(fn):
-			a := act{Op: "scan", H: h, Fn: fn}
-			r.randFilterN(&a)
-			r.emitCall(a, false)
-		case twoPivot(fn):
+	scan := func(fn string, p, q int) {
+		a := act{Op: "scan", H: h, Fn: fn, P: p, Q: q}
+		r.randFilterN(&a)
+		r.emitCall(a, false)
+	}
+	if r.s.api == "wrap" {
+		for _, fn := range wrapScans {
 			for _, p := range ps {
-				for j := 0; j < 2; j++ {
-					a := act{Op: "scan", H: h, Fn: fn, P: p, Q: ps[r.rng.Intn(len(ps))]}
-					r.randFilterN(&a)
-					r.emitCall(a, false)
-				}
+				scan(fn, p, 0)
 			}
-		default:
-			for _, p := range ps {
-				a := act{Op: "scan", H: h, Fn: fn, P: p}
-				r.randFilterN(&a)
-				r.emitCall(a, false)
+		}
+		return
+	}
+	for _, fn := range []string{"AscendGreater", "DescendLess", "AscendGreaterOrEqual", "DescendLessOrEqual"} {
+		for _, p := range ps {
+			scan(fn, p, 0)
+		}
+	}
+	scan("Ascend", 0, 0)
+	scan("Descend", 0, 0)
+	for i, p := range ps {
+		edge := i == 0 || i == len(ps)-1
+		for _, fn := range []string{"AscendLessThan", "DescendGreaterThan"} {
+			if edge || r.rng.Intn(4) == 0 {
+				scan(fn, p, 0)
+			}
+		}
+		for _, fn := range []string{"AscendRange", "DescendRange"} {
+			if edge || r.rng.Intn(4) == 0 {
+				scan(fn, p, ps[r.rng.Intn(len(ps))])
 			}
 		}
 	}
@@ -556,7 +568,7 @@ func (r *runner) finish() {
 func newRunner(w *tr.W, rng *rand.Rand, api string, deg, lo, hi, sweep, dumpK int, src string) *runner {
 	w.Emit(tr.E{"ev": "reset", "api": api, "deg": deg, "threads": 1, "src": src, "lo": lo, "hi": hi})
 	st.Degrees[deg]++
-	return &runner{w: w, s: newSut(api, deg), rng: rng, lo: lo, hi: hi, sweep: sweep, dumpK: dumpK}
+	return &runner{w: w, s: newSut(api, deg), rng: rng, lo: lo, hi: hi, sweep: sweep, dumpK: dumpK, last: map[int]string{}}
 }
 
 // ------------------------------------------------------------------ plans
@@ -980,7 +992,7 @@ func main() {
 	npar := flag.Int("npar", 20, "parallel-clone histories")
 	nconc := flag.Int("nconc", 60, "concurrent wrapper histories")
 	nstress := flag.Int("nstress", 6, "long concurrent wrapper histories")
-	sweep := flag.Int("sweep", 0, "scan sweeps: 0 end of trace, 1 also on structure change (sampled), 2 on every structure change")
+	sweep := flag.Int("sweep", 4, "probability (percent) of a scan sweep after a write that changed the node structure (always one per handle at the end of a trace)")
 	statf := flag.String("stats", "", "write statistics (json) here")
 	flag.Parse()
 	rng := rand.New(rand.NewSource(*seed))
@@ -1002,11 +1014,7 @@ func main() {
 					}
 				}
 			}
-			sw := 0
-			if *sweep >= 2 {
-				sw = 1
-			}
-			r := newRunner(w, rng, p[0].Api, p[0].Deg, lo, hi, sw, 1, "plan:"+filepath.Base(f))
+			r := newRunner(w, rng, p[0].Api, p[0].Deg, lo, hi, *sweep, 1, "plan:"+filepath.Base(f))
 			for _, a := range p[1:] {
 				r.step(a)
 			}
@@ -1014,14 +1022,7 @@ func main() {
 		}
 	}
 	for i := 0; i < *nhist; i++ {
-		sw := 0
-		switch {
-		case *sweep >= 2:
-			sw = 1
-		case *sweep == 1 && i%4 == 0:
-			sw = 1
-		}
-		randHistory(w, rng, i, *maxops, sw)
+		randHistory(w, rng, i, *maxops, *sweep)
 	}
 	for i := 0; i < *npar; i++ {
 		runParallel(w, rng, 2+i%3, 20+rng.Intn(30))
